@@ -65,7 +65,9 @@ def mixed_subsets(tier: str):
 def prior_keys(n: int) -> tuple[str, ...]:
     # "zero": the last state is never prepared (prior exactly 0) - added after seeded change C11-4, which dropped zero-prior states
     # (harmless for discrimination, wrong for exclusion, where such a state can always be excluded: the value must be 0)
-    return ("uniform", "ramp", "g0", "zero") if n >= 3 else ("uniform", "ramp", "g0")
+    # "zero0": the first state is never prepared - added after seeded change C10-7, which moved the operators of zero-prior states to
+    # the end of the returned measurement (invisible when the zero is last)
+    return ("uniform", "ramp", "g0", "zero", "zero0") if n >= 3 else ("uniform", "ramp", "g0")
 
 
 def weights(n: int, key: str) -> np.ndarray:
@@ -74,6 +76,9 @@ def weights(n: int, key: str) -> np.ndarray:
     if key == "zero":
         w = np.arange(n - 1, 0, -1, dtype=float)
         return np.concatenate([w / w.sum(), [0.0]])
+    if key == "zero0":
+        w = np.arange(1, n, dtype=float)
+        return np.concatenate([[0.0], w / w.sum()])
     if key == "ones":
         return np.ones(n)
     if n <= 5:
